@@ -30,9 +30,10 @@ func init() {
 }
 
 type pOpts struct {
-	Ign   bool       `json:"ign"`
-	Deref bool       `json:"deref"`
-	Allow [][]string `json:"allow"`
+	Ign      bool       `json:"ign"`
+	Deref    bool       `json:"deref"`
+	Allow    [][]string `json:"allow"`
+	AllowRel [][]string `json:"allowrel"`
 }
 
 type pMeta struct {
@@ -180,6 +181,9 @@ func newPacker(g *arena.Gamma, root string, o pOpts) *slug.Packer {
 	for _, a := range o.Allow {
 		opts = append(opts, slug.AllowSymlinkTarget(g.Abs(root, a)))
 	}
+	for _, a := range o.AllowRel {
+		opts = append(opts, slug.AllowSymlinkTarget(g.Spell(root, a)))
+	}
 	p, _ := slug.NewPacker(opts...)
 	return p
 }
@@ -226,6 +230,13 @@ func runPackCase(base string, c *pCase) (obs *pObs, infra string) {
 			}
 		}
 		p := newPacker(g, root, c.Opts)
+		for _, pre := range c.Pre {
+			if pre.Op == "packsame" {
+				// the very Packer value used below first packs another root
+				var sink bytes.Buffer
+				p.Pack(g.Abs(root, []string{"A", "cw", "t"}), &sink)
+			}
+		}
 		var buf bytes.Buffer
 		var wg sync.WaitGroup
 		var buf2 bytes.Buffer
